@@ -5,6 +5,7 @@
 import FwdVerif.Driver.C16
 import FwdVerif.Driver.Req
 import FwdVerif.Driver.Resp
+import FwdVerif.Driver.C17
 
 open FwdVerif
 
@@ -13,6 +14,7 @@ def dispatch (line : String) : String :=
   | "C16" :: rest => C16.handle rest
   | "REQ" :: rest => Req.handle rest
   | "RESP" :: rest => Resp.handle rest
+  | "C17" :: rest => C17.handle rest
   | ["ping"] => "pong"
   | _ => "bad-op"
 
